@@ -215,7 +215,8 @@ pub fn get_answer_state(
         if g.class() != qclass {
             continue;
         }
-        if g.rtype() != qtype {
+        // Any RRset at the name is an answer to a query for type ANY.
+        if qtype != Rtype::ANY && g.rtype() != qtype {
             continue;
         }
         if g.owner() != qname {
